@@ -117,9 +117,10 @@ pub fn roundtrip_events<W: Write>(em: &mut Emitter<W>, n: usize, seed: u64, scra
     let all = SpecsJ::all();
     for i in 0..n {
         // the first cases use the table systematically, later ones mix in random names / bit patterns
-        let specs = if i % 3 == 0 { all[rng.gen_range(0..all.len())] } else { kinds[i % kinds.len()] };
+        // the first sixteen cases are the degenerate ones of every kind: the empty graph, then nodes without edges
+        let specs = if i < 16 { kinds[i % kinds.len()] } else if i % 3 == 0 { all[rng.gen_range(0..all.len())] } else { kinds[i % kinds.len()] };
         let specs = SpecsJ { missing: 0, ..specs };
-        let k = rng.gen_range(1..=6);
+        let k = if i < 8 { 0 } else { rng.gen_range(1..=6) };
         let mut names: Vec<String> = (0..k)
             .map(|j| if i < 200 || rng.gen_bool(0.5) { table[(i * 7 + j * 13 + rng.gen_range(0..3)) % table.len()].clone() } else { random_name(&mut rng) })
             .collect();
@@ -130,7 +131,7 @@ pub fn roundtrip_events<W: Write>(em: &mut Emitter<W>, n: usize, seed: u64, scra
         for nm in &names {
             g.add_node(Node::from_name(nm.clone()));
         }
-        let ne = rng.gen_range(0..=8);
+        let ne = if i < 16 { 0 } else { rng.gen_range(0..=8) };
         for j in 0..ne {
             let u = names[rng.gen_range(0..names.len())].clone();
             let v = names[rng.gen_range(0..names.len())].clone();
